@@ -1,0 +1,16 @@
+//go:build verif
+
+package logging
+
+// SimCrit, when set by a deterministic simulator, is called by Crit before the process
+// would exit. The simulator records the message, freezes the simulated disk of the node the
+// calling goroutine belongs to (the process is dead as far as durable state is concerned)
+// and ends the goroutine with runtime.Goexit, so that "MUST NOT HAPPEN" branches become
+// observable events instead of killing the simulator.
+var SimCrit func(msg string, ctx []interface{})
+
+func simCrit(msg string, ctx []interface{}) {
+	if h := SimCrit; h != nil {
+		h(msg, ctx)
+	}
+}
